@@ -157,7 +157,8 @@ func c17Order(e *vh.Env, c c17Case, be *vh.Backend, o *vh.Out) {
 			c17Journal = nil
 			c17Mu.Unlock()
 			be.Reset()
-			r := httptest.NewRequest("POST", "/c17", strings.NewReader(strings.Repeat("b", blen)))
+			method := []string{"POST", "GET", "DELETE", "PUT", "OPTIONS"}[(blen+len(key))%5]
+			r := httptest.NewRequest(method, "/c17", strings.NewReader(strings.Repeat("b", blen)))
 			r.RemoteAddr = "10.17.0.1:1"
 			if key != "" {
 				r.Header.Set("X-API-Key", key)
@@ -168,7 +169,7 @@ func c17Order(e *vh.Env, c c17Case, be *vh.Backend, o *vh.Out) {
 			j := append([]string(nil), c17Journal...)
 			c17Mu.Unlock()
 			o.Obs("requests", 1)
-			ctx := fmt.Sprintf("chain %v key=%q body=%d", c.Chain, key, blen)
+			ctx := fmt.Sprintf("chain %v %s key=%q body=%d", c.Chain, method, key, blen)
 			last := len(c.Chain) // probes p0..p_last enter when nothing rejects
 			if rejectAt >= 0 {
 				last = rejectAt
